@@ -1,6 +1,9 @@
 package main
 
 import (
+	"context"
+	"net"
+	"sync"
 	"fmt"
 	"math"
 	"math/rand"
@@ -11,8 +14,58 @@ import (
 
 	commonv1beta1 "github.com/kubeflow/katib/pkg/apis/controller/common/v1beta1"
 	api "github.com/kubeflow/katib/pkg/apis/manager/v1beta1"
+	trialsv1beta1 "github.com/kubeflow/katib/pkg/apis/controller/trials/v1beta1"
+	"github.com/kubeflow/katib/pkg/controller.v1beta1/consts"
 	trialctl "github.com/kubeflow/katib/pkg/controller.v1beta1/trial"
+	"github.com/kubeflow/katib/pkg/controller.v1beta1/trial/managerclient"
+	"google.golang.org/grpc"
+	metav1 "k8s.io/apimachinery/pkg/apis/meta/v1"
 )
+
+// an in-process DB manager holding one Trial's stored log; like the SQL back ends it filters by metric name when one is given
+type c11DB struct {
+	api.UnimplementedDBManagerServer
+}
+
+var (
+	c11DBOnce sync.Once
+	c11DBOk   bool
+	c11Stored []*api.MetricLog
+	c11Asked  []string
+)
+
+func (d *c11DB) GetObservationLog(ctx context.Context, in *api.GetObservationLogRequest) (*api.GetObservationLogReply, error) {
+	c11Asked = append(c11Asked, in.MetricName)
+	out := []*api.MetricLog{}
+	for _, m := range c11Stored {
+		if in.MetricName == "" || m.Metric.Name == in.MetricName {
+			out = append(out, m)
+		}
+	}
+	if len(out) == 0 {
+		// what the real DB manager answers for "no rows": an ObservationLog without entries
+		return &api.GetObservationLogReply{ObservationLog: &api.ObservationLog{}}, nil
+	}
+	return &api.GetObservationLogReply{ObservationLog: &api.ObservationLog{MetricLogs: out}}, nil
+}
+
+func startC11DB() bool {
+	c11DBOnce.Do(func() {
+		lis, err := net.Listen("tcp", "127.0.0.1:0")
+		if err != nil {
+			return
+		}
+		srv := grpc.NewServer()
+		api.RegisterDBManagerServer(srv, &c11DB{})
+		go func() { _ = srv.Serve(lis) }()
+		host, port, _ := net.SplitHostPort(lis.Addr().String())
+		consts.DefaultKatibDBManagerServiceNamespace = ""
+		consts.DefaultKatibDBManagerServiceIP = host
+		consts.DefaultKatibDBManagerServicePort = port
+		c11DBOk = true
+	})
+	return c11DBOk
+}
 
 var c11Texts = []string{"0.5", "1e-3", "+.5", "-0", "0", "0.0", "3", "-2.25", "1E2", "100", "abc", "", "unavailable",
 	"0.123456789012345", "7.", "1_0", "0x1p-2", ".5", "0.50", "-1e308", "1e400", "5e-324", "2.5", "-3", "١"}
@@ -95,6 +148,10 @@ func init() {
 			tags = append(tags, "has-bad-timestamp")
 		}
 		op := fmt.Sprintf("C11 %d %s ; %d %s", ns, strings.Join(sn, " "), ne, strings.Join(es, " "))
+		viaClient := ns > 0 && rng.Intn(3) == 0 && startC11DB()
+		if viaClient {
+			tags = append(tags, "via-manager-client")
+		}
 		var impl string
 		func() {
 			defer func() {
@@ -102,7 +159,26 @@ func init() {
 					impl = "panic"
 				}
 			}()
-			obs, err := trialctl.VerifGetMetrics(logs, strategies)
+			fetched := logs
+			if viaClient {
+				// the controller's own path: the real manager client asks the DB manager metric by metric
+				c11Stored, c11Asked = logs, nil
+				tr := &trialsv1beta1.Trial{ObjectMeta: metav1.ObjectMeta{Name: "t", Namespace: "ns"}}
+				tr.Spec.Objective = &commonv1beta1.ObjectiveSpec{MetricStrategies: strategies}
+				if len(strategies) > 0 {
+					tr.Spec.Objective.ObjectiveMetricName = strategies[0].Name
+					for _, st := range strategies[1:] {
+						tr.Spec.Objective.AdditionalMetricNames = append(tr.Spec.Objective.AdditionalMetricNames, st.Name)
+					}
+				}
+				reply, gerr := managerclient.New().GetTrialObservationLog(tr)
+				if gerr != nil || reply == nil || reply.ObservationLog == nil {
+					impl = "err-manager-client"
+					return
+				}
+				fetched = reply.ObservationLog.MetricLogs
+			}
+			obs, err := trialctl.VerifGetMetrics(fetched, strategies)
 			if err != nil {
 				impl = "err"
 				tags = append(tags, "out=err")
